@@ -1,2 +1,1063 @@
-// Package c01: check for property C01 (see /verif/DESIGN.md §3 C01).
+// Package c01: every file format round-trips its own output and speaks the
+// standard dialect (see /verif/DESIGN.md section 3, C01).
+//
+// Exhaustive bounded enumeration of record streams over an alphabet of nasty
+// cell symbols x every format/option variant, run through the real writers and
+// readers (direct calls, bound to the command line by a smaller in-process
+// pass), with four oracles: self round trip inside an explicit per-format
+// domain, idempotence of `cat` on its own output for every stream,
+// independent RFC 4180 / IANA TSV / RFC 8259 codecs in both directions, and
+// chunking/BOM/CRLF independence of the readers.
 package c01
+
+import (
+	"encoding/json"
+	"fmt"
+	"os"
+	"sort"
+	"strings"
+
+	"github.com/johnkerl/miller/v6/pkg/cli"
+	"github.com/johnkerl/miller/v6/pkg/verifrt"
+
+	"verif/harness/vf"
+)
+
+func init() {
+	vf.Register(&vf.CheckDef{ID: "C01", Level: "model_checking", Run: run,
+		Workers: map[string]vf.WorkerFunc{"rt": rtWorker, "chunk": chunkWorker, "bind": bindWorker}})
+}
+
+const blockSize = 128
+
+// ---------------------------------------------------------------- labels
+
+func symbolSet(cells ...string) string {
+	seen := map[string]bool{}
+	for _, c := range cells {
+		if c == "" {
+			seen["empty"] = true
+		}
+		for _, s := range sigma {
+			if s != "a" && strings.Contains(c, s) {
+				seen[sigmaNames[s]] = true
+			}
+		}
+	}
+	if len(seen) == 0 {
+		return "plain"
+	}
+	var l []string
+	for k := range seen {
+		l = append(l, k)
+	}
+	sort.Strings(l)
+	return strings.Join(l, "+")
+}
+
+// diffLabel names the first difference between the expected and the obtained
+// stream: what kind of cell and which special symbols it carries.
+func diffLabel(exp, got stream) string {
+	if len(exp) != len(got) {
+		return fmt.Sprintf("records-%d-to-%d/%s", len(exp), len(got), streamSymbols(exp))
+	}
+	for i := range exp {
+		if len(exp[i]) != len(got[i]) {
+			return fmt.Sprintf("fields-%d-to-%d/%s", min(len(exp[i]), 14), min(len(got[i]), 14), streamSymbols(stream{exp[i]}))
+		}
+		for j := range exp[i] {
+			if exp[i][j].K != got[i][j].K {
+				return "key/" + symbolSet(exp[i][j].K)
+			}
+			if exp[i][j].V != got[i][j].V {
+				return "value/" + symbolSet(exp[i][j].V)
+			}
+		}
+	}
+	return "none"
+}
+
+func streamSymbols(s stream) string {
+	var cells []string
+	for _, r := range s {
+		for _, f := range r {
+			// plain cells say nothing about the cause
+			if symbolSet(f.K) != "plain" {
+				cells = append(cells, f.K)
+			}
+			if symbolSet(f.V) != "plain" {
+				cells = append(cells, f.V)
+			}
+		}
+	}
+	return symbolSet(cells...)
+}
+
+func errLabel(err error) string {
+	if err == nil {
+		return "nil"
+	}
+	s := err.Error()
+	// keep the stable leading words of the message, drop data
+	for _, cut := range []string{"header/data length", "schema change", "bare \"", "extraneous or missing", "unexpected", "invalid character", "did not find", "mismatch"} {
+		if strings.Contains(s, cut) {
+			return strings.ReplaceAll(strings.ReplaceAll(cut, " ", "-"), "\"", "quote")
+		}
+	}
+	w := strings.Fields(s)
+	if len(w) > 4 {
+		w = w[:4]
+	}
+	out := strings.Join(w, "-")
+	out = strings.Map(func(r rune) rune {
+		if r == '(' || r == ':' || r == ')' {
+			return '_'
+		}
+		return r
+	}, out)
+	return out
+}
+
+func crashLabel(p any) string {
+	if e, ok := p.(verifrt.ExitPanic); ok {
+		return fmt.Sprintf("os.Exit-%d", e.Code)
+	}
+	return "panic"
+}
+
+func key(oracle string, v *variant, label string, s stream) string {
+	label = strings.Map(func(r rune) rune {
+		if r == '(' || r == ':' || r == ')' {
+			return '_'
+		}
+		return r
+	}, label)
+	return fmt.Sprintf("%s[%s/%s]:%04d:%s", oracle, v.name, label, s.size(), s.String())
+}
+
+func replay(v *variant, s stream, extra map[string]any) map[string]any {
+	m := map[string]any{"variant": v.name, "flags": v.flags, "stream": s.String(), "records_json": streamJSON(s)}
+	for k, x := range extra {
+		m[k] = x
+	}
+	return m
+}
+
+// streamJSON: the stream as JSON text when it is valid UTF-8 (for reproducing with the plain binary).
+func streamJSON(s stream) string {
+	if domJSON(s) == "invalid-utf8" {
+		return "(not valid UTF-8)"
+	}
+	return jsonRender(s, jsonStyle{"minimal", "spaced", "array"}, false)
+}
+
+func q(s string) string { return fmt.Sprintf("%q", s) }
+
+// ---------------------------------------------------------------- selection
+
+func selectedVariants(quick bool) []variant {
+	only := os.Getenv("VERIF_C01_VARIANT")
+	var out []variant
+	for _, v := range variants() {
+		if quick && v.thoroughOnly {
+			continue
+		}
+		if only != "" && !strings.HasPrefix(v.name, only) {
+			continue
+		}
+		out = append(out, v)
+	}
+	return out
+}
+
+type parsed struct {
+	v   variant
+	o   *cli.TOptions
+	err error
+}
+
+func parseAll(vs []variant) []parsed {
+	out := make([]parsed, len(vs))
+	for i, v := range vs {
+		o, err := parseFlags(v.flags)
+		out[i] = parsed{v, o, err}
+	}
+	return out
+}
+
+// ---------------------------------------------------------------- rt worker
+
+func nontrivial(s stream) bool {
+	if len(s) >= 2 {
+		return true
+	}
+	for _, r := range s {
+		if len(r) >= 12 {
+			return true
+		}
+		for _, f := range r {
+			if symbolSet(f.K, f.V) != "plain" {
+				return true
+			}
+		}
+	}
+	return false
+}
+
+func rtWorker(w *vf.Worker) {
+	verifrt.TrapExits(true)
+	vf.CaptureStderr()
+	quick := w.Quick()
+	ps := parseAll(selectedVariants(quick))
+	famOnly := os.Getenv("VERIF_C01_FAMILY")
+	var idx uint64
+	for pi := range ps {
+		p := &ps[pi]
+		v := &p.v
+		if p.err != nil {
+			idx++
+			if w.Mine(idx) {
+				w.Begin(idx)
+				w.Violation("options["+v.name+"]:"+strings.Join(v.flags, " "), fmt.Sprintf("mlr %s cat: option parsing fails: %v", strings.Join(v.flags, " "), p.err), nil)
+			}
+			continue
+		}
+		var block []stream
+		var fams []string
+		flush := func() {
+			if len(block) == 0 {
+				return
+			}
+			idx++
+			if w.Mine(idx) {
+				w.Begin(idx)
+				first := block[0]
+				w.Label(func() string { return fmt.Sprintf("variant %s block starting at %s", v.name, first.String()) })
+				for i, s := range block {
+					rtCase(w, p, fams[i], s)
+				}
+				vf.TakeStderr()
+			}
+			block, fams = block[:0], fams[:0]
+		}
+		enumerate(quick, func(fam string, s stream) {
+			if famOnly != "" && !strings.HasPrefix(fam, famOnly) {
+				return
+			}
+			block = append(block, s)
+			fams = append(fams, fam)
+			if len(block) >= blockSize {
+				flush()
+			}
+		})
+		flush()
+	}
+	w.Sample(map[string]any{"variant": "csv", "stream": stream{rec{{"a", "x\r\n"}, {"b,", "\"y"}}}.String(), "alphabet": len(sigma) + 1})
+}
+
+func countSymbols(w *vf.Worker, v *variant, s stream, side string) {
+	seenK, seenV := map[string]bool{}, map[string]bool{}
+	for _, r := range s {
+		for _, f := range r {
+			if f.K == "" {
+				seenK["empty"] = true
+			}
+			if f.V == "" {
+				seenV["empty"] = true
+			}
+			for _, sy := range sigma {
+				if strings.Contains(f.K, sy) {
+					seenK[sigmaNames[sy]] = true
+				}
+				if strings.Contains(f.V, sy) {
+					seenV[sigmaNames[sy]] = true
+				}
+			}
+		}
+	}
+	for k := range seenK {
+		w.Count("sym|"+v.format+"|"+side+"|key|"+k, 1)
+	}
+	for k := range seenV {
+		w.Count("sym|"+v.format+"|"+side+"|value|"+k, 1)
+	}
+}
+
+func rtCase(w *vf.Worker, p *parsed, fam string, s stream) {
+	v := &p.v
+	o := p.o
+	w.Eval(1)
+	why := v.domain(s)
+	inDom := why == ""
+	if inDom {
+		w.Count("domain|"+v.name+"|in", 1)
+		countSymbols(w, v, s, "in")
+		if nontrivial(s) {
+			w.Nontrivial(1)
+		}
+	} else {
+		w.Count("domain|"+v.name+"|out|"+why, 1)
+		countSymbols(w, v, s, "out")
+	}
+	w.Count("family|"+fam, 1)
+
+	maps := toMaps(s)
+	t1, werr, crash := writeMaps(o, maps)
+	if crash != nil {
+		w.Violation(key("crash-write", v, crashLabel(crash)+"/"+streamSymbols(s), s), fmt.Sprintf("mlr %s: the writer left the process (%v) on records %s", strings.Join(v.flags, " "), crash, s), replay(v, s, nil))
+		return
+	}
+	if werr != nil {
+		if inDom {
+			w.Violation(key("roundtrip-write-error", v, errLabel(werr)+"/"+streamSymbols(s), s), fmt.Sprintf("mlr %s: the writer rejects representable records %s: %v", strings.Join(v.flags, " "), s, werr), replay(v, s, nil))
+		} else {
+			w.Count("outcome|writer-rejected-outside-domain", 1)
+		}
+		return
+	}
+	r1 := readText(o, t1)
+	if r1.crash != nil {
+		w.Violation(key("crash-read", v, crashLabel(r1.crash)+"/"+streamSymbols(s), s), fmt.Sprintf("mlr %s cat: the reader crashes (%v) on Miller's own output %s written for %s", strings.Join(v.flags, " "), r1.crash, q(t1), s), replay(v, s, map[string]any{"text": t1}))
+		return
+	}
+	if r1.err != nil {
+		if inDom {
+			w.Violation(key("roundtrip-read-error", v, errLabel(r1.err)+"/"+streamSymbols(s), s), fmt.Sprintf("mlr %s cat: Miller's own output %s (written for %s) is rejected: %v", strings.Join(v.flags, " "), q(t1), s, r1.err), replay(v, s, map[string]any{"text": t1}))
+		} else {
+			w.Count("outcome|reader-rejected-outside-domain", 1)
+		}
+		return
+	}
+	s2 := fromMaps(r1.maps)
+	same := equalStreams(s, s2)
+	if inDom {
+		if same {
+			w.Count("outcome|roundtrip-ok", 1)
+		} else {
+			w.Violation(key("roundtrip", v, diffLabel(s, s2), s), fmt.Sprintf("mlr %s: wrote %s as %s, read it back as %s", strings.Join(v.flags, " "), s, q(t1), s2), replay(v, s, map[string]any{"text": t1, "read_back": s2.String()}))
+		}
+	} else if same {
+		w.Count("outcome|roundtrip-ok-outside-domain", 1)
+	} else {
+		w.Count("outcome|lossy-outside-domain", 1)
+	}
+	if len(w.Rep.Samples) < 3 && inDom && same && nontrivial(s) && s.size() > 14 {
+		w.Sample(map[string]any{"variant": v.name, "stream": s.String(), "text": t1})
+	}
+
+	// Idempotence of `cat` on its own output. t2 = cat(t1); when the round trip
+	// held, t2 must be t1 (strong form); for every stream cat(t2) must be t2.
+	t2, werr2, crash2 := writeMaps(o, r1.maps)
+	if crash2 != nil {
+		w.Violation(key("crash-write", v, crashLabel(crash2)+"/reread/"+streamSymbols(s), s), fmt.Sprintf("mlr %s cat: the writer crashes (%v) on records read from %s", strings.Join(v.flags, " "), crash2, q(t1)), replay(v, s, map[string]any{"text": t1}))
+		return
+	}
+	if werr2 != nil {
+		if inDom {
+			w.Violation(key("idempotence-write-error", v, errLabel(werr2)+"/"+streamSymbols(s), s), fmt.Sprintf("mlr %s cat on its own output %s: writer error %v", strings.Join(v.flags, " "), q(t1), werr2), replay(v, s, map[string]any{"text": t1}))
+		} else {
+			w.Count("outcome|rewrite-rejected-outside-domain", 1)
+		}
+		return
+	}
+	w.AddSet("outcomes", fmt.Sprintf("%s|dom=%v|rt=%v|idem=%v", v.format, inDom, same, t2 == t1))
+	if same {
+		if t2 != t1 {
+			// same records, different text: the writer is not a function of the records
+			w.Violation(key("idempotence-strong", v, streamSymbols(s), s), fmt.Sprintf("mlr %s cat: records %s were written as %s, and the identical records read back from it as %s", strings.Join(v.flags, " "), s, q(t1), q(t2)), replay(v, s, map[string]any{"text": t1, "text2": t2}))
+		}
+	} else {
+		r2 := readText(o, t2)
+		if r2.crash != nil {
+			w.Violation(key("crash-read", v, crashLabel(r2.crash)+"/second/"+streamSymbols(s), s), fmt.Sprintf("mlr %s cat: the reader crashes (%v) on cat's own output %s", strings.Join(v.flags, " "), r2.crash, q(t2)), replay(v, s, map[string]any{"text": t2}))
+			return
+		}
+		if r2.err != nil {
+			w.Violation(key("idempotence-read-error", v, errLabel(r2.err)+"/"+streamSymbols(s2), s2), fmt.Sprintf("mlr %s cat: input %s gives output %s, which the same command then rejects: %v", strings.Join(v.flags, " "), q(t1), q(t2), r2.err), replay(v, s, map[string]any{"text": t1, "text2": t2}))
+			return
+		}
+		t3, werr3, crash3 := writeMaps(o, r2.maps)
+		if crash3 != nil || werr3 != nil {
+			w.Violation(key("idempotence-write-error", v, "second/"+streamSymbols(s2), s2), fmt.Sprintf("mlr %s cat: input %s gives output %s; running the command on that fails in the writer: %v %v", strings.Join(v.flags, " "), q(t1), q(t2), werr3, crash3), replay(v, s, map[string]any{"text": t1, "text2": t2}))
+			return
+		}
+		if t3 != t2 {
+			s3 := fromMaps(r2.maps)
+			w.Violation(key("idempotence", v, diffLabel(s2, s3), s2), fmt.Sprintf("mlr %s cat is not idempotent on its own output: %s -> %s -> %s", strings.Join(v.flags, " "), q(t1), q(t2), q(t3)), replay(v, s, map[string]any{"text": t1, "text2": t2, "text3": t3}))
+		} else {
+			w.Count("outcome|idempotent-after-lossy-first-pass", 1)
+		}
+	}
+
+	if v.std != "" && inDom {
+		stdCase(w, p, s, t1)
+	}
+}
+
+// ---------------------------------------------------------------- standard dialects
+
+func expectedRows(v *variant, s stream) [][]string {
+	var rows [][]string
+	if !v.positional {
+		rows = append(rows, s[0].keys())
+	}
+	for _, r := range s {
+		rows = append(rows, values(r))
+	}
+	return rows
+}
+
+func rowsEqual(a, b [][]string) bool {
+	if len(a) != len(b) {
+		return false
+	}
+	for i := range a {
+		if len(a[i]) != len(b[i]) {
+			return false
+		}
+		for j := range a[i] {
+			if a[i][j] != b[i][j] {
+				return false
+			}
+		}
+	}
+	return true
+}
+
+func rowsLabel(exp, got [][]string) string {
+	if len(exp) != len(got) {
+		return fmt.Sprintf("rows-%d-to-%d", len(exp), len(got))
+	}
+	for i := range exp {
+		if len(exp[i]) != len(got[i]) {
+			return fmt.Sprintf("fields-%d-to-%d", min(len(exp[i]), 14), min(len(got[i]), 14))
+		}
+		for j := range exp[i] {
+			if exp[i][j] != got[i][j] {
+				return "cell/" + symbolSet(exp[i][j])
+			}
+		}
+	}
+	return "none"
+}
+
+func stdCase(w *vf.Worker, p *parsed, s stream, t1 string) {
+	v := &p.v
+	flags := strings.Join(v.flags, " ")
+	foreign := func(style string, text string) {
+		w.Count("std|"+v.std+"|foreign-texts", 1)
+		r := readText(p.o, text)
+		switch {
+		case r.crash != nil:
+			w.Violation(key("std-read-crash", v, crashLabel(r.crash)+"/"+style+"/"+streamSymbols(s), s), fmt.Sprintf("mlr %s cat: the reader crashes (%v) on standard-conforming text %s (style %s)", flags, r.crash, q(text), style), replay(v, s, map[string]any{"text": text, "style": style}))
+		case r.err != nil:
+			w.Violation(key("std-read-error", v, errLabel(r.err)+"/"+style+"/"+streamSymbols(s), s), fmt.Sprintf("mlr %s cat rejects standard-conforming text %s (style %s, cells %s): %v", flags, q(text), style, s, r.err), replay(v, s, map[string]any{"text": text, "style": style}))
+		default:
+			got := fromMaps(r.maps)
+			if !equalStreams(got, s) {
+				w.Violation(key("std-read", v, style+"/"+diffLabel(s, got), s), fmt.Sprintf("mlr %s cat reads standard-conforming text %s (style %s) as %s, expected %s", flags, q(text), style, got, s), replay(v, s, map[string]any{"text": text, "style": style, "read": got.String()}))
+			}
+		}
+	}
+	switch v.std {
+	case "csv":
+		comma := v.fs[0]
+		exp := expectedRows(v, s)
+		got, err := csvParse(t1, comma)
+		w.Count("std|csv|miller-texts", 1)
+		if err != nil {
+			w.Violation(key("std-write", v, "not-rfc4180/"+streamSymbols(s), s), fmt.Sprintf("mlr %s writes %s as %s, which is not RFC 4180: %v", flags, s, q(t1), err), replay(v, s, map[string]any{"text": t1}))
+		} else if !rowsEqual(exp, got) {
+			w.Violation(key("std-write", v, rowsLabel(exp, got), s), fmt.Sprintf("mlr %s writes %s as %s; an RFC 4180 reader gets %q", flags, s, q(t1), got), replay(v, s, map[string]any{"text": t1}))
+		}
+		if v.stdReadSkip {
+			return
+		}
+		// every legal quoting style
+		type cellRef struct{ r, c int }
+		var optional []cellRef
+		must := map[cellRef]bool{}
+		for r, row := range exp {
+			for c, cell := range row {
+				if csvMustQuote(cell, comma) {
+					must[cellRef{r, c}] = true
+				} else {
+					optional = append(optional, cellRef{r, c})
+				}
+			}
+		}
+		maxBits := 8
+		if w.Quick() {
+			maxBits = 4
+		}
+		var masks []map[cellRef]bool
+		if len(optional) <= maxBits {
+			for m := 0; m < 1<<len(optional); m++ {
+				mk := map[cellRef]bool{}
+				for b, cr := range optional {
+					if m>>b&1 == 1 {
+						mk[cr] = true
+					}
+				}
+				masks = append(masks, mk)
+			}
+		} else {
+			all := map[cellRef]bool{}
+			for _, cr := range optional {
+				all[cr] = true
+			}
+			masks = append(masks, map[cellRef]bool{}, all)
+			for _, cr := range optional {
+				masks = append(masks, map[cellRef]bool{cr: true})
+				mk := map[cellRef]bool{}
+				for _, o := range optional {
+					if o != cr {
+						mk[o] = true
+					}
+				}
+				masks = append(masks, mk)
+			}
+			w.Count("std|csv|quoting-subsets-reduced", 1)
+		}
+		last := exp[len(exp)-1]
+		for mi, mk := range masks {
+			quoted := func(r, c int) bool { return must[cellRef{r, c}] || mk[cellRef{r, c}] }
+			for _, eol := range []string{"\n", "\r\n"} {
+				for _, fin := range []bool{true, false} {
+					if !fin && len(last) == 1 && last[0] == "" && !quoted(len(exp)-1, 0) {
+						continue // an empty last line without terminator is not a record
+					}
+					style := "lf"
+					if eol == "\r\n" {
+						style = "crlf"
+					}
+					if !fin {
+						style += "-nofinal"
+					}
+					switch {
+					case len(mk) == 0:
+						style += "-minq"
+					case len(mk) == len(optional):
+						style += "-allq"
+					default:
+						style += "-someq"
+					}
+					_ = mi
+					foreign(style, csvRender(exp, comma, eol, fin, quoted))
+				}
+			}
+		}
+	case "tsv":
+		exp := expectedRows(v, s)
+		got, err := tsvParse(t1)
+		w.Count("std|tsv|miller-texts", 1)
+		if err != nil || !rowsEqual(exp, got) {
+			w.Violation(key("std-write", v, rowsLabel(exp, got), s), fmt.Sprintf("mlr %s writes %s as %s; an IANA-TSV reader with \\t \\n \\r \\\\ escapes gets %q", flags, s, q(t1), got), replay(v, s, map[string]any{"text": t1}))
+		}
+		if v.stdReadSkip {
+			return
+		}
+		last := exp[len(exp)-1]
+		for _, eol := range []string{"\n", "\r\n"} {
+			for _, fin := range []bool{true, false} {
+				if !fin && len(last) == 1 && last[0] == "" {
+					continue
+				}
+				for _, minimal := range []bool{false, true} {
+					style := map[string]string{"\n": "lf", "\r\n": "crlf"}[eol]
+					if !fin {
+						style += "-nofinal"
+					}
+					if minimal {
+						style += "-minesc"
+					}
+					foreign(style, tsvRender(exp, eol, fin, minimal))
+				}
+			}
+		}
+	case "json", "jsonl":
+		w.Count("std|json|miller-texts", 1)
+		valid := true
+		if v.std == "json" {
+			valid = json.Valid([]byte(t1))
+		} else {
+			for _, line := range strings.Split(t1, "\n") {
+				if strings.TrimSpace(line) != "" && !json.Valid([]byte(line)) {
+					valid = false
+				}
+			}
+		}
+		got, err := jsonParse(t1)
+		switch {
+		case !valid || err != nil:
+			w.Violation(key("std-write", v, "not-rfc8259/"+streamSymbols(s), s), fmt.Sprintf("mlr %s writes %s as %s, which is not RFC 8259 JSON (valid=%v err=%v)", flags, s, q(t1), valid, err), replay(v, s, map[string]any{"text": t1}))
+		case v.name == "json-quoteall":
+			// all values become strings: same bytes
+			fallthrough
+		default:
+			if !equalStreams(got, s) {
+				w.Violation(key("std-write", v, diffLabel(s, got), s), fmt.Sprintf("mlr %s writes %s as %s; encoding/json reads %s", flags, s, q(t1), got), replay(v, s, map[string]any{"text": t1}))
+			}
+		}
+		if v.stdReadSkip {
+			return
+		}
+		hasNum := false
+		for _, r := range s {
+			for _, f := range r {
+				if isJSONNumber(f.V) {
+					hasNum = true
+				}
+			}
+		}
+		for _, st := range jsonStyles(w.Quick()) {
+			foreign(st.String(), jsonRender(s, st, false))
+			if hasNum {
+				foreign(st.String()+"/bare-numbers", jsonRender(s, st, true))
+			}
+		}
+	}
+}
+
+// ---------------------------------------------------------------- chunk worker
+
+const bom = "\xef\xbb\xbf"
+
+// chunkStreams: a small canonical set of streams per variant for the
+// chunking/BOM/CRLF oracle: every one-symbol value, a few two-record and
+// three-field shapes.
+func chunkStreams(v *variant, quick bool) []stream {
+	var out []stream
+	k1, k2, k3 := "a", "b", "c"
+	if v.positional {
+		k1, k2, k3 = "1", "2", "3"
+	}
+	for _, c := range words(1) {
+		out = append(out, stream{one(k1, c)})
+		out = append(out, stream{rec{{k1, "x"}, {k2, c}}, rec{{k1, c}, {k2, "y"}}})
+	}
+	out = append(out, stream{rec{{k1, "x"}, {k2, "y"}, {k3, "z"}}})
+	if !v.positional {
+		for _, c := range words(1) {
+			if c != "a" {
+				out = append(out, stream{one(c, "x")})
+			}
+		}
+		out = append(out, stream{one("é", "é")}, stream{rec{{"a", "x"}}, rec{{"b", "y"}}})
+	}
+	if !quick {
+		for _, c := range words(2) {
+			if len(c) >= 2 {
+				out = append(out, stream{rec{{k1, c}, {k2, "y"}}})
+			}
+		}
+	}
+	return out
+}
+
+func sameResult(a, b readResult) (bool, string) {
+	if (a.err != nil) != (b.err != nil) {
+		return false, fmt.Sprintf("error %v vs %v", a.err, b.err)
+	}
+	if a.err != nil {
+		return true, ""
+	}
+	sa, sb := fromMaps(a.maps), fromMaps(b.maps)
+	if !equalStreams(sa, sb) {
+		return false, fmt.Sprintf("%s vs %s", sa, sb)
+	}
+	return true, ""
+}
+
+func chunkWorker(w *vf.Worker) {
+	verifrt.TrapExits(true)
+	vf.CaptureStderr()
+	quick := w.Quick()
+	ps := parseAll(selectedVariants(quick))
+	maxLen := 40
+	if quick {
+		maxLen = 26
+	}
+	var idx uint64
+	for pi := range ps {
+		p := &ps[pi]
+		v := &p.v
+		if p.err != nil {
+			continue
+		}
+		flags := strings.Join(v.flags, " ")
+		for _, s := range chunkStreams(v, quick) {
+			idx++
+			if !w.Mine(idx) {
+				continue
+			}
+			w.Begin(idx)
+			w.Label(func() string { return fmt.Sprintf("chunk %s %s", v.name, s) })
+			if v.domain(s) != "" {
+				w.Count("chunk|outside-domain", 1)
+				continue
+			}
+			t1, werr, crash := writeMaps(p.o, toMaps(s))
+			if werr != nil || crash != nil {
+				continue // reported by the rt worker
+			}
+			base := readText(p.o, t1)
+			if base.crash != nil || base.err != nil {
+				continue // reported by the rt worker
+			}
+			type textCase struct{ name, text string }
+			texts := []textCase{{"plain", t1}, {"bom", bom + t1}}
+			hasEOL := false
+			for _, r := range s {
+				for _, f := range r {
+					if strings.ContainsAny(f.K+f.V, "\r\n") {
+						hasEOL = true
+					}
+				}
+			}
+			if !hasEOL && (v.rs == "\n" || v.rs == "") && strings.Contains(t1, "\n") {
+				crlf := strings.ReplaceAll(t1, "\n", "\r\n")
+				texts = append(texts, textCase{"crlf", crlf})
+				if strings.HasSuffix(t1, "\n") {
+					texts = append(texts, textCase{"nofinal", strings.TrimSuffix(t1, "\n")})
+				}
+			}
+			for _, tc := range texts {
+				whole := readText(p.o, tc.text)
+				w.Eval(1)
+				if whole.crash != nil {
+					w.Violation(key("crash-read", v, crashLabel(whole.crash)+"/"+tc.name, s), fmt.Sprintf("mlr %s cat: reader crashes (%v) on %s", flags, whole.crash, q(tc.text)), replay(v, s, map[string]any{"text": tc.text}))
+					continue
+				}
+				// what the text must mean
+				switch tc.name {
+				case "bom":
+					if v.bomStrip {
+						if ok, d := sameResult(base, whole); !ok {
+							w.Violation(key("bom", v, "whole/"+streamSymbols(s), s), fmt.Sprintf("mlr %s cat: a leading UTF-8 BOM changes the records read from %s: %s", flags, q(tc.text), d), replay(v, s, map[string]any{"text": tc.text}))
+						}
+					}
+				case "crlf":
+					if ok, d := sameResult(base, whole); !ok {
+						w.Violation(key("crlf", v, streamSymbols(s), s), fmt.Sprintf("mlr %s cat: CR/LF line endings change the records read: %s vs %s: %s", flags, q(t1), q(tc.text), d), replay(v, s, map[string]any{"text": tc.text}))
+					}
+				case "nofinal":
+					if ok, d := sameResult(base, whole); !ok {
+						lastEmpty := false
+						if n := len(s); n > 0 {
+							lr := s[n-1]
+							lastEmpty = lr[len(lr)-1].V == ""
+						}
+						if lastEmpty {
+							w.Count("chunk|nofinal-unconstrained-empty-last-cell", 1)
+						} else {
+							w.Violation(key("final-newline", v, streamSymbols(s), s), fmt.Sprintf("mlr %s cat: dropping the final newline changes the records read from %s: %s", flags, q(t1), d), replay(v, s, map[string]any{"text": tc.text}))
+						}
+					}
+				}
+				// chunking independence
+				L := len(tc.text)
+				if L > maxLen {
+					w.Count("chunk|text-longer-than-bound", 1)
+					continue
+				}
+				bad := 0
+				for i := 1; i < L && bad < 3; i++ {
+					for j := i; j <= L && bad < 3; j++ {
+						// j == L: two chunks; i<j<L: three chunks
+						if j == i {
+							continue
+						}
+						var chunks []string
+						if j == L {
+							chunks = []string{tc.text[:i], tc.text[i:]}
+						} else {
+							chunks = []string{tc.text[:i], tc.text[i:j], tc.text[j:]}
+						}
+						r := readChunks(p.o, chunks)
+						w.Eval(1)
+						w.Count("chunk|"+tc.name+"|chunkings", 1)
+						if r.crash != nil {
+							bad++
+							w.Violation(key("crash-read", v, crashLabel(r.crash)+"/chunked-"+tc.name, s), fmt.Sprintf("mlr %s cat: reader crashes (%v) when %s arrives as %q", flags, r.crash, q(tc.text), chunks), replay(v, s, map[string]any{"chunks": chunks}))
+							continue
+						}
+						if ok, d := sameResult(whole, r); !ok {
+							bad++
+							lbl := fmt.Sprintf("%s/first-read-%d-bytes", tc.name, min(len(chunks[0]), 4))
+							w.Violation(key("chunking", v, lbl, s), fmt.Sprintf("mlr %s cat: the records depend on how the input arrives: %s in one read vs reads %q: %s", flags, q(tc.text), chunks, d), replay(v, s, map[string]any{"text": tc.text, "chunks": chunks}))
+						}
+					}
+				}
+			}
+			vf.TakeStderr()
+		}
+	}
+	w.Sample(map[string]any{"chunking": []string{"\xef", "\xbb\xbfa,b\n1", ",2\n"}, "variant": "csv"})
+}
+
+// ---------------------------------------------------------------- bind worker
+
+// bindStreams: the cases on which the direct writer/reader calls are compared
+// with the complete command line run in-process.
+func bindStreams(v *variant) []stream {
+	var out []stream
+	k1, k2 := "a", "b"
+	if v.positional {
+		k1, k2 = "1", "2"
+	}
+	for _, c := range words(1) {
+		out = append(out, stream{rec{{k1, c}, {k2, "y"}}})
+		out = append(out, stream{rec{{k1, "x"}, {k2, c}}, rec{{k1, c + c}, {k2, "y"}}})
+		if !v.positional && c != "a" && c != "b" {
+			out = append(out, stream{rec{{c, "x"}, {"b", "y"}}})
+		}
+	}
+	out = append(out, stream{one(k1, "x"), rec{{k1, "y"}, {k2, "z"}}}, stream{rec{{k1, "y"}, {k2, "z"}}, one(k1, "x")}, stream{one("a", "x"), one("b", "y")})
+	for _, n := range numberFamily {
+		out = append(out, stream{rec{{k1, n}, {k2, "x"}}})
+	}
+	return out
+}
+
+func bindWorker(w *vf.Worker) {
+	verifrt.TrapExits(true)
+	quick := w.Quick()
+	ps := parseAll(selectedVariants(quick))
+	var idx uint64
+	for pi := range ps {
+		p := &ps[pi]
+		v := &p.v
+		if p.err != nil {
+			continue
+		}
+		// documented separators of the flag list
+		idx++
+		if w.Mine(idx) {
+			w.Begin(idx)
+			chk := func(what, got, want string) {
+				if want != "" && got != want {
+					w.Violation("separators["+v.name+"]:"+what, fmt.Sprintf("mlr %s: %s is %q, documentation says %q", strings.Join(v.flags, " "), what, got, want), nil)
+				}
+			}
+			chk("IFS", p.o.ReaderOptions.IFS, v.fs)
+			chk("OFS", p.o.WriterOptions.OFS, v.fs)
+			chk("IPS", p.o.ReaderOptions.IPS, v.ps)
+			chk("OPS", p.o.WriterOptions.OPS, v.ps)
+			if v.rs != "" {
+				chk("ORS", p.o.WriterOptions.ORS, v.rs)
+			}
+			w.Eval(1)
+		}
+		for _, s := range bindStreams(v) {
+			idx++
+			if !w.Mine(idx) {
+				continue
+			}
+			w.Begin(idx)
+			w.Label(func() string { return fmt.Sprintf("bind %s %s", v.name, s) })
+			t1, werr, crash := writeMaps(p.o, toMaps(s))
+			if crash != nil {
+				continue
+			}
+			// writer side: the same records through `mlr --ijson <flags-with-output-format> cat`
+			if domJSON(s) == "" && !hasNumberLike(s) {
+				jtext := jsonRender(s, jsonStyle{"minimal", "spaced", "array"}, false)
+				args := append(append([]string{}, v.flags...), "--ijson", "cat", virtualName)
+				r := vf.RunMlr(args, vf.MlrOpts{Files: vf.VFS{virtualName: jtext}})
+				w.Eval(1)
+				w.Count("bind|writer-side", 1)
+				if werr != nil {
+					if r.Exit == 0 {
+						w.Violation(key("bind-write", v, "direct-error-cli-ok", s), fmt.Sprintf("direct writer call fails (%v) but `mlr %s` exits 0 with %s", werr, strings.Join(args, " "), q(r.Stdout)), replay(v, s, nil))
+					}
+				} else if r.Exit != 0 || r.Stdout != t1 {
+					// JSON output of JSON input keeps JSON types (strings stay strings): same text expected,
+					// except where the JSON reader types a value differently from the data readers.
+					w.Violation(key("bind-write", v, streamSymbols(s), s), fmt.Sprintf("direct writer call gives %s but `mlr %s` (exit %d, %s) gives %s", q(t1), strings.Join(args, " "), r.Exit, r.Err, q(r.Stdout)), replay(v, s, map[string]any{"direct": t1, "cli": r.Stdout}))
+				}
+			}
+			if werr != nil {
+				continue
+			}
+			// reader+writer side: `mlr <flags> cat` on the text
+			direct := readText(p.o, t1)
+			if direct.crash != nil {
+				continue
+			}
+			args := append(append([]string{}, v.flags...), "cat", virtualName)
+			r := vf.RunMlr(args, vf.MlrOpts{Files: vf.VFS{virtualName: t1}})
+			w.Eval(1)
+			w.Count("bind|cat-side", 1)
+			if direct.err != nil {
+				if r.Exit == 0 {
+					w.Violation(key("bind-cat", v, "direct-error-cli-ok", s), fmt.Sprintf("direct reader call fails (%v) on %s but `mlr %s` exits 0 with %s", direct.err, q(t1), strings.Join(args, " "), q(r.Stdout)), replay(v, s, map[string]any{"text": t1}))
+				}
+				continue
+			}
+			t2, werr2, _ := writeMaps(p.o, direct.maps)
+			if werr2 != nil {
+				if r.Exit == 0 {
+					w.Violation(key("bind-cat", v, "direct-write-error-cli-ok", s), fmt.Sprintf("direct re-write fails (%v) on %s but `mlr %s` exits 0", werr2, q(t1), strings.Join(args, " ")), replay(v, s, map[string]any{"text": t1}))
+				}
+				continue
+			}
+			if r.Exit != 0 || r.Stdout != t2 {
+				w.Violation(key("bind-cat", v, streamSymbols(s), s), fmt.Sprintf("direct read+write of %s gives %s but `mlr %s` (exit %d %s %s) gives %s", q(t1), q(t2), strings.Join(args, " "), r.Exit, r.Err, r.Panic, q(r.Stdout)), replay(v, s, map[string]any{"text": t1, "direct": t2, "cli": r.Stdout}))
+			}
+		}
+	}
+	w.Sample(map[string]any{"bind": "mlr --csv cat c01-input", "compared_with": "output.Create/Write + input.Create/Read"})
+}
+
+func hasNumberLike(s stream) bool {
+	for _, r := range s {
+		for _, f := range r {
+			if f.V != "" && (isJSONNumber(f.V) || looksNumericNonJSON(f.V)) {
+				return true
+			}
+		}
+	}
+	return false
+}
+
+// ---------------------------------------------------------------- orchestrator
+
+func run(c *vf.Ctx) {
+	quick := c.Quick()
+	vs := selectedVariants(quick)
+	maxLen := 3
+	if quick {
+		maxLen = 2
+	}
+	c.Rule = fmt.Sprintf("every record stream of the canonical families (one nasty cell of <= %d symbols over an 18-symbol alphabet at every position of 1- and 3-field records; all pairs of one-symbol cells; 2-record streams; every pair of records over keys {a,b,c} x values {x,empty,-}; positional-key twins; header-join collisions; 11/12/13-field records) x every format/option variant, through the real writer and reader. A case counts as distinct non-trivial when the stream is inside the variant's documented domain and has a cell with a non-letter symbol, >= 2 records or >= 12 fields; distinct streams are counted once per variant", maxLen)
+	c.Assume("cells longer than the bound and Unicode beyond one 2-byte letter and one invalid byte are not explored")
+	c.Assume("records with zero fields are not enumerated")
+	c.Assume("round trip is asserted only inside each variant's domain predicate (formats.go, written from file-formats.md / reference-main-separators.md); outside it only idempotence of cat on its own output (cat(cat(t)) == cat(t)) is asserted; the strong form cat(t) == t is asserted when the round trip held")
+	c.Assume("JSON/YAML: invalid UTF-8 and number-like values whose spelling is not an RFC 8259 number (0x1F, +1, 1., .5, -0, Inf) are outside the byte-exact domain (JSON cannot carry them; the writer documents re-rendering)")
+	c.Assume("DKVPX/XTAB/PPRINT empty keys, and a markdown/PPRINT-barred cell with outer white space, are outside the domain (documentation silent / trimmed by design)")
+	c.Assume("comment handling flags, compressed input, --ifs-regex/--ips-regex, --repifs on formats other than NIDX/PPRINT, fixed-width PPRINT input, colourised output, DCF and recutils are not covered")
+	c.Assume("direct writer/reader calls use the option structs climain.ParseCommandLine returns for `mlr <flags> cat`; a separate pass compares them with the full in-process command line on a subset")
+
+	// distinct non-trivial cases by the rule, computed over the same enumeration
+	distinct := int64(0)
+	perVariant := map[string]int64{}
+	streams := 0
+	{
+		seen := map[string]bool{}
+		var all []stream
+		enumerate(quick, func(fam string, s stream) {
+			k := s.String()
+			if !seen[k] {
+				seen[k] = true
+				all = append(all, s)
+			}
+		})
+		streams = len(all)
+		for _, v := range vs {
+			for _, s := range all {
+				if v.domain(s) == "" && nontrivial(s) {
+					distinct++
+					perVariant[v.name]++
+				}
+			}
+		}
+	}
+
+	res := c.RunPool(vf.PoolSpec{Worker: "rt", Shards: 256, CrashKey: func(idx uint64, label, kind, tail string) (string, string) {
+		return "crash[" + kind + "]:" + label, fmt.Sprintf("worker died (%s) in %s: %s", kind, label, tail)
+	}})
+	res2 := c.RunPool(vf.PoolSpec{Worker: "chunk", Shards: 128, CrashKey: func(idx uint64, label, kind, tail string) (string, string) {
+		return "crash[" + kind + "]:" + label, fmt.Sprintf("worker died (%s) in %s: %s", kind, label, tail)
+	}})
+	_ = res2
+	c.RunPool(vf.PoolSpec{Worker: "bind", Shards: 64})
+	c.DistinctNontrivial = distinct
+	c.Extra["distinct_streams"] = streams
+	c.Extra["variants"] = len(vs)
+	c.Extra["distinct_nontrivial_in_domain_per_variant"] = perVariant
+	c.Extra["distinct_outcomes"] = vf.SortedSet(res, "outcomes")
+
+	// restructure the flat counters into readable tables
+	domIn := map[string]int64{}
+	domOut := map[string]map[string]int64{}
+	symIn := map[string]map[string]int64{}
+	symOut := map[string]map[string]int64{}
+	fam := map[string]int64{}
+	outcome := map[string]int64{}
+	std := map[string]int64{}
+	chunk := map[string]int64{}
+	for k, n := range c.Counters {
+		f := strings.Split(k, "|")
+		switch f[0] {
+		case "domain":
+			if f[2] == "in" {
+				domIn[f[1]] += n
+			} else {
+				if domOut[f[1]] == nil {
+					domOut[f[1]] = map[string]int64{}
+				}
+				domOut[f[1]][f[3]] += n
+			}
+			delete(c.Counters, k)
+		case "sym":
+			m := symIn
+			if f[2] == "out" {
+				m = symOut
+			}
+			if m[f[1]] == nil {
+				m[f[1]] = map[string]int64{}
+			}
+			m[f[1]][f[3]+":"+f[4]] += n
+			delete(c.Counters, k)
+		case "family":
+			fam[f[1]] += n
+			delete(c.Counters, k)
+		case "outcome":
+			outcome[f[1]] += n
+			delete(c.Counters, k)
+		case "std":
+			std[strings.Join(f[1:], " ")] += n
+			delete(c.Counters, k)
+		case "chunk", "bind":
+			chunk[strings.Join(f, " ")] += n
+			delete(c.Counters, k)
+		}
+	}
+	c.Extra["domain_inside_per_variant"] = domIn
+	c.Extra["domain_outside_per_variant_by_reason"] = domOut
+	c.Extra["symbol_hits_inside_domain_per_format"] = symIn
+	c.Extra["symbol_hits_outside_domain_per_format"] = symOut
+	c.Extra["cases_per_family"] = fam
+	c.Extra["outcomes"] = outcome
+	c.Extra["standard_dialect_texts"] = std
+	c.Extra["chunking_and_binding"] = chunk
+	// vacuity: every symbol must have been exercised inside the domain of at least one format, in keys and in values
+	var never []string
+	for _, sy := range append(append([]string{}, sigma...), "") {
+		name := sigmaNames[sy]
+		for _, kind := range []string{"key", "value"} {
+			hit := false
+			for _, m := range symIn {
+				if m[kind+":"+name] > 0 {
+					hit = true
+				}
+			}
+			if !hit {
+				never = append(never, kind+":"+name)
+			}
+		}
+	}
+	c.Extra["symbols_never_inside_any_domain"] = never
+	if len(never) > 0 && os.Getenv("VERIF_C01_VARIANT") == "" && os.Getenv("VERIF_C01_FAMILY") == "" {
+		c.Broken("alphabet symbols never exercised inside any domain: %v", never)
+	}
+	for _, v := range vs {
+		if domIn[v.name] == 0 && os.Getenv("VERIF_C01_FAMILY") == "" {
+			c.Broken("variant %s: no stream inside its domain", v.name)
+		}
+		if len(domOut[v.name]) == 0 && os.Getenv("VERIF_C01_FAMILY") == "" {
+			c.Broken("variant %s: domain predicate never false (one-sided)", v.name)
+		}
+	}
+}
